@@ -246,6 +246,24 @@ Definition new_verifier (allow : bool) (k : key) : res unit :=
   | _ => Err
   end.
 
+(* tls.CreateSignature(privKey, hashAlgo, data): dynamic type of privKey as the type switch sees
+   it (the VALUE types rsa.PrivateKey / ecdsa.PrivateKey; pointers and everything else take the
+   default arm).  generateHash runs first, over the generated table, so an undefined hash code is
+   refused before the key is looked at.  [sign_ok]: rsa.SignPKCS1v15 / ecdsa.Sign + asn1.Marshal
+   returned no error (an oracle, like the verification primitives).  The result is the
+   (Algorithm.Hash, Algorithm.Signature) pair the returned DigitallySigned declares. *)
+Inductive privkind := PrivRSA | PrivECDSA | PrivOther.
+Definition create_signature (sign_ok : bool) (pk : privkind) (h : N) : res (N * N) :=
+  match hash_table (Z.of_N h) with
+  | None => Err                                     (* unsupported Algorithm.Hash *)
+  | Some _ =>
+      match pk with
+      | PrivRSA => if sign_ok then Ok (h, SIG_RSA) else Err
+      | PrivECDSA => if sign_ok then Ok (h, SIG_ECDSA) else Err
+      | PrivOther => Err                            (* unsupported private key type *)
+      end
+  end.
+
 (* external operations performed by NewFromSignedJSON, in order *)
 Inductive jstep := JVerify | JParse.
 
